@@ -326,8 +326,29 @@ func (d *driver) planExtF(count int) {
 				nodes[k].Ann = map[string]string{"verif.tier": []string{"gold", "silver"}[x]}
 			}
 		}
+		crafted := d.rng.Intn(4) == 0
+		if crafted {
+			// one image with four referrers of two artifact types and two tiers: a paginated listing of its referrers has
+			// pages without a match between pages with one
+			e := func(role string, to int) vh.Edge { return vh.Edge{Role: role, To: to} }
+			tier := func() map[string]string {
+				return map[string]string{"verif.tier": []string{"gold", "silver"}[d.rng.Intn(2)]}
+			}
+			nodes = []vh.NodeSpec{{}, {Kind: "blob", Edges: []vh.Edge{}},
+				{Kind: "manifest", Edges: []vh.Edge{e("config", 1)}},
+				{Kind: "manifest", Art: "application/vnd.verif.sig", Ann: tier(), Edges: []vh.Edge{e("subject", 2), e("config", 1)}},
+				{Kind: "artifact", Art: "application/vnd.verif.sbom", Ann: tier(), Edges: []vh.Edge{e("subject", 2), e("blob", 1)}},
+				{Kind: "manifest", Art: "application/vnd.verif.sig", Ann: tier(), Edges: []vh.Edge{e("subject", 2), e("config", 1)}},
+				{Kind: "artifact", Art: "application/vnd.verif.sbom", Ann: tier(), Edges: []vh.Edge{e("subject", 2), e("blob", 1)}},
+				{Kind: "manifest", Art: "application/vnd.verif.sig", Ann: tier(), Edges: []vh.Edge{e("subject", 3), e("config", 1)}}}
+			n = len(nodes) - 1
+		}
 		sc := Scenario{Nodes: nodes, C: 1 + d.rng.Intn(3), Dst0: []int{}, Seed: d.rng.Int63(), API: "extcopygraph"}
 		sc.Root = 1 + d.rng.Intn(n)
+		if crafted {
+			sc.Root = 2
+			sc.Salt = fmt.Sprint("x", i) // other digests, hence another page order, every time
+		}
 		sc.SrcKind = []string{"memory", "oci", "remote", "remote", "remotetag"}[d.rng.Intn(5)]
 		sc.DstKind = []string{"memory", "oci"}[d.rng.Intn(2)]
 		if sc.SrcKind == "remote" {
